@@ -50,3 +50,11 @@ claim('C19', 'CFG path rules (exactly-one-yield between fetches), induction-vari
       'counter +1 per cycle, 0/1 start on the right branch of the segment-0 test; final-block test after the yield ends fetching; '
       'unsegmented path yields once). Does not decide loss patterns or producer behaviour.',
       'express_interest contract; Component.from_segment/to_number semantics')
+
+claim('C20', 'ordering of classified writes over the CFG, constant folding of environment names, finite-domain evaluation of scheme dispatch, sibling-contradiction check on scheme:location splits',
+      'Decides that read_client_conf writes default < file < environment < resolve_location in that order on every path, each '
+      'source over all its keys (resolution only pib/tpm), missing keys tolerated without overwriting; folded environment names; '
+      'get_path first-existing; default_face / default_keychain scheme tables by enumerating every scheme value plus "other" '
+      '(raising default), default port 6363 only when absent; scheme:location splits at most once everywhere; resolve_location '
+      'fallback chain guarded by existence tests. Does not decide file-system state or ConfigParser/urlparse behaviour.',
+      'ConfigParser, urlparse and os.path semantics')
